@@ -114,6 +114,8 @@ def run_check(prop, harness_name, tier, seed=0, budget_s=None, mutant=None, jobs
     t_start = time.time()
     mod = importlib.import_module("harness." + harness_name)
     specs = mod.jobs(tier)
+    if hasattr(mod, "select"):
+        specs = [s for s in specs if mod.select(prop, s)]
     if jobs_filter:
         specs = [s for s in specs if jobs_filter(s)]
     props = [prop]
